@@ -166,6 +166,7 @@ func checkC15(p *Program, r *Report) {
 	c15Fresh(p, r)
 	c15Positions(p, r, sm)
 	c15Lists(p, r)
+	c15ActionResults(p, r)
 	c15Identifiers(p, r, sm)
 }
 
@@ -1255,4 +1256,233 @@ func evalPurePredicate(fn *ssa.Function, ch int64) (bool, bool) {
 		}
 	}
 	return false, false
+}
+
+// c15ActionResults (R13): the semantic value of every grammar rule is defined by that rule: its action assigns $$ on every
+// path, or the first right-hand-side symbol carries a value of the same kind (yacc's default $$ = $1). Otherwise the value is
+// whatever an earlier reduction left in that slot of the parser's value stack, and the tree depends on what was parsed before.
+func c15ActionResults(p *Program, r *Report) {
+	r.Explain("R13 every grammar rule defines its own semantic value: $$ assigned on every path that does not fail the parse, or $1 defined (token, or symbol all of whose rules are defined), or the only unassigned case is the all-empty derivation, which a simulation of the LALR tables shows is never reduced.")
+	g, err := BuildLALR(p)
+	if err != nil {
+		return
+	}
+	isSel := func(e ast.Expr, base string) (string, int, bool) { // yyVAL.F -> (F,0) ; yyDollar[n].F -> (F,n)
+		se, ok := e.(*ast.SelectorExpr)
+		if !ok {
+			return "", 0, false
+		}
+		switch x := se.X.(type) {
+		case *ast.Ident:
+			if x.Name == "yyVAL" && base == "yyVAL" {
+				return se.Sel.Name, 0, true
+			}
+		case *ast.IndexExpr:
+			if id, ok := x.X.(*ast.Ident); ok && id.Name == "yyDollar" && base == "yyDollar" {
+				if bl, ok := x.Index.(*ast.BasicLit); ok {
+					n := 0
+					fmt.Sscanf(bl.Value, "%d", &n)
+					return se.Sel.Name, n, true
+				}
+			}
+		}
+		return "", 0, false
+	}
+	lhsField := map[int]string{} // nonterminal -> union field
+	symField := map[int]string{} // symbol -> union field
+	for rule, cc := range g.Clauses {
+		if cc == nil || rule <= 0 || rule >= len(g.R1) {
+			continue
+		}
+		rhs := g.RHS[rule]
+		ast.Inspect(cc, func(n ast.Node) bool {
+			e, ok := n.(ast.Expr)
+			if !ok {
+				return true
+			}
+			if f, _, ok := isSel(e, "yyVAL"); ok {
+				lhsField[g.R1[rule]] = f
+				symField[-g.R1[rule]] = f
+			}
+			if f, k, ok := isSel(e, "yyDollar"); ok && k >= 1 && k <= len(rhs) {
+				symField[rhs[k-1]] = f
+			}
+			return true
+		})
+	}
+	// isError: yylex.Error(...) — the parse fails, no tree is returned, so the rule's value does not matter on that path
+	isError := func(st ast.Stmt) bool {
+		es, ok := st.(*ast.ExprStmt)
+		if !ok {
+			return false
+		}
+		c, ok := es.X.(*ast.CallExpr)
+		if !ok {
+			return false
+		}
+		se, ok := c.Fun.(*ast.SelectorExpr)
+		if !ok || se.Sel.Name != "Error" {
+			return false
+		}
+		id, ok := se.X.(*ast.Ident)
+		return ok && id.Name == "yylex"
+	}
+	var definitely func(list []ast.Stmt, f string) bool
+	definitely = func(list []ast.Stmt, f string) bool {
+		for _, st := range list {
+			if isError(st) {
+				return true
+			}
+			switch s := st.(type) {
+			case *ast.AssignStmt:
+				for _, l := range s.Lhs {
+					if ff, _, ok := isSel(l, "yyVAL"); ok && ff == f {
+						return true
+					}
+				}
+			case *ast.BlockStmt:
+				if definitely(s.List, f) {
+					return true
+				}
+			case *ast.IfStmt:
+				if s.Else != nil && definitely(s.Body.List, f) && definitely([]ast.Stmt{s.Else}, f) {
+					return true
+				}
+			}
+		}
+		return false
+	}
+	assignsSomewhere := func(cc *ast.CaseClause, f string) bool {
+		found := false
+		if cc == nil {
+			return false
+		}
+		ast.Inspect(cc, func(n ast.Node) bool {
+			if as, ok := n.(*ast.AssignStmt); ok {
+				for _, l := range as.Lhs {
+					if ff, _, ok := isSel(l, "yyVAL"); ok && ff == f {
+						found = true
+					}
+				}
+			}
+			return true
+		})
+		return found
+	}
+	definite := func(rule int, f string) bool {
+		cc := g.Clauses[rule]
+		return cc != nil && definitely(cc.Body, f)
+	}
+	var rules []int
+	for rule := range g.RHS {
+		if rule > 0 && rule < len(g.R1) {
+			rules = append(rules, rule)
+		}
+	}
+	sort.Ints(rules)
+	// allEmptyFeasible: the tables can reduce rule with its first symbol derived by an empty rule and nothing shifted in between
+	// (every right-hand-side symbol derived from nothing, at one and the same lookahead)
+	allEmptyFeasible := func(rule int) bool {
+		rhs := g.RHS[rule]
+		if len(rhs) == 0 || rhs[0] >= 0 {
+			return false
+		}
+		for s0 := 0; s0 < g.NStates; s0++ {
+			if !g.Reach[s0] {
+				continue
+			}
+			for t := 1; t <= g.NTok; t++ {
+				k, e := g.Action(s0, t)
+				if k != actReduce || len(g.RHS[e]) != 0 || -g.R1[e] != rhs[0] {
+					continue
+				}
+				stack := []int{s0, g.Goto(s0, g.R1[e])}
+				for step := 0; step < 64; step++ {
+					k, a := g.Action(stack[len(stack)-1], t)
+					if k != actReduce {
+						break
+					}
+					n := len(g.RHS[a])
+					if len(stack)-n < 1 {
+						break
+					}
+					if a == rule && len(stack)-n == 1 {
+						return true
+					}
+					stack = stack[:len(stack)-n]
+					stack = append(stack, g.Goto(stack[len(stack)-1], g.R1[a]))
+				}
+			}
+		}
+		return false
+	}
+	// defined[rule]: greatest fixpoint of "assigns $$ on every path, or $1 is a token (all other fields zero) or a symbol all of
+	// whose rules are defined, or the only unassigned case is an all-empty derivation the tables never choose"
+	guardedOK := map[int]bool{}
+	for _, rule := range rules {
+		f := lhsField[g.R1[rule]]
+		if f != "" && !definite(rule, f) && assignsSomewhere(g.Clauses[rule], f) && !allEmptyFeasible(rule) {
+			guardedOK[rule] = true
+		}
+	}
+	type rf struct {
+		rule int
+		f    string
+	}
+	undefinedRF := map[rf]bool{}
+	fields := map[string]bool{}
+	for _, f := range lhsField {
+		fields[f] = true
+	}
+	symDefined := func(sym int, f string) bool {
+		if sym > 0 {
+			return true
+		}
+		for _, r2 := range rules {
+			if g.R1[r2] == -sym && undefinedRF[rf{r2, f}] {
+				return false
+			}
+		}
+		return true
+	}
+	for changed := true; changed; {
+		changed = false
+		for _, rule := range rules {
+			for f := range fields {
+				if undefinedRF[rf{rule, f}] {
+					continue
+				}
+				rhs := g.RHS[rule]
+				ok := definite(rule, f) || (lhsField[g.R1[rule]] == f && guardedOK[rule]) || (len(rhs) > 0 && symDefined(rhs[0], f))
+				if !ok {
+					undefinedRF[rf{rule, f}] = true
+					changed = true
+				}
+			}
+		}
+	}
+	n := 0
+	for _, rule := range rules {
+		f := lhsField[g.R1[rule]]
+		if f == "" {
+			continue
+		}
+		how := ""
+		switch {
+		case definite(rule, f):
+			how = "the action assigns $$ on every path that does not fail the parse"
+		case !undefinedRF[rf{rule, f}] && guardedOK[rule]:
+			how = "assigned except when every right-hand-side symbol derives nothing, which the tables never choose for this rule"
+		case !undefinedRF[rf{rule, f}]:
+			how = "$$ defaults to $1, whose value is defined"
+		}
+		n++
+		pos := "parser/parser.go (tables)"
+		if cc := g.Clauses[rule]; cc != nil {
+			pos = p.Pos(cc.Pos())
+		}
+		r.Check(how != "", "C15.R13", "rule "+g.RuleString(rule)+"|result defined", pos, how,
+			"the rule's action can leave its result unset while $1 comes from an empty rule that sets nothing: the result is whatever an earlier reduction left in that slot of the value stack, so the tree of a text depends on what was parsed before it (an empty block inherits the statements of a previous block)")
+	}
+	r.Floor("C15.R13", n, 150)
 }
